@@ -25,7 +25,7 @@ class World:
         self.objs = []      # (label, object, owner_index or None)
 
     def add(self, label, obj, owner=None):
-        if isinstance(obj, (Vector, Table)):
+        if isinstance(obj, (Vector, Table)) and not any(o is obj for _, o, _ in self.objs):
             self.objs.append((label, obj, owner))
         return obj
 
@@ -80,7 +80,7 @@ def make_origin(w, origin):
     raise ValueError(origin)
 
 
-DERIVS = ['copy', 'slice', 'mask', 'index-vector', 'colsel', 'sel2d', 'rshift-vector', 'rshift-dict', 'rshift-table', 'lshift', 'inner', 'left', 'full',
+DERIVS = ['rshift-empty-dict', 'sort-noop', 'full-slice', 'full-mask', 'copy', 'slice', 'mask', 'index-vector', 'colsel', 'sel2d', 'rshift-vector', 'rshift-dict', 'rshift-table', 'lshift', 'inner', 'left', 'full',
           'sort', 'aggregate', 'window', 'T', 'Table()', 'setattr', 'setattr-indexed', 'arith', 'compare', 'fillna', 'cast', 'view', 'cols()', 'getitem-name']
 
 
@@ -88,6 +88,12 @@ def derive(w, parent, d):
     """Returns the derived object (or None when the derivation does not apply to this parent)."""
     pi = [k for k, (_, o, _) in enumerate(w.objs) if o is parent][0]
     isT = isinstance(parent, Table)
+    if d == 'full-slice': return w.add('child', parent[0:len(parent)] if isT else parent[:])
+    if d == 'full-mask': return w.add('child', parent[[True] * len(parent)])
+    if d == 'rshift-empty-dict': return w.add('child', parent >> {}) if isT else None
+    if d == 'sort-noop':
+        # a sort that has nothing to reorder still returns a new object
+        return w.add('child', parent.sort_by(parent.cols()[1]) if isT else Vector(sorted(parent), name=parent.name).sort_by())
     if d == 'copy': return w.add('child', parent.copy())
     if d == 'slice': return w.add('child', parent[0:2])
     if d == 'mask': return w.add('child', parent[[True, False, True]])
@@ -202,6 +208,8 @@ def _iso_body(origin, di, ti, wi, row):
         return H.fail('derivation %s on origin %s raised %r' % (d, origin, e))
     if child is None:
         return None
+    if child is parent and d not in ('setattr', 'setattr-indexed'):
+        return H.fail('origin %s: derivation %s returned its operand itself instead of a new object' % (origin, d))
     # every table also exposes a live column view as a separate handle
     for k, (label, o, owner) in list(enumerate(w.objs)):
         if isinstance(o, Table) and len(o.cols()) and owner is None and label in ('parent', 'child'):
@@ -467,6 +475,8 @@ def _hist_body(ops, rows):
         written = None
         try:
             ci = [k for k, (_, o, _) in enumerate(w.objs) if o is cur][0]
+            if op.startswith('derive-') and op != 'derive-view':
+                prev = cur
             if op == 'derive-copy': cur = w.add('t%d' % (step + 1), cur.copy())
             elif op == 'derive-slice': cur = w.add('t%d' % (step + 1), cur[0:3])
             elif op == 'derive-colsel': cur = w.add('t%d' % (step + 1), cur[tuple(n for n in cur.column_names()[:2])])
@@ -474,6 +484,8 @@ def _hist_body(ops, rows):
             elif op == 'derive-join': cur = w.add('t%d' % (step + 1), cur.join(Table({cur.column_names()[0]: [1, 2, 3], 'j%d' % step: [0, 0, 0]}), cur.column_names()[0], cur.column_names()[0]))
             elif op == 'derive-sort': cur = w.add('t%d' % (step + 1), cur.sort_by(cur.column_names()[0]))
             elif op == 'derive-view': w.add('view%d' % step, cur.cols()[0], owner=ci)
+            if op.startswith('derive-') and op != 'derive-view' and cur is prev:
+                return H.fail('history %r: step %d (%s) returned its operand itself instead of a new table' % (ops, step, op))
             elif op == 'setattr-donor':
                 donor = w.add('donor%d' % step, Vector([4, 5, 6], name='dn'))
                 setattr(cur, cur.column_names()[0], donor)
@@ -525,7 +537,7 @@ def obligations(tier):
     obs = []
     for origin in ORIGINS:
         for di in range(len(DERIVS)):
-            if origin.startswith('vector') and DERIVS[di] in ('colsel', 'sel2d', 'rshift-dict', 'rshift-table', 'inner', 'left', 'full', 'aggregate', 'window', 'setattr',
+            if origin.startswith('vector') and DERIVS[di] in ('rshift-empty-dict', 'colsel', 'sel2d', 'rshift-dict', 'rshift-table', 'inner', 'left', 'full', 'aggregate', 'window', 'setattr',
                                                                'setattr-indexed', 'view', 'cols()', 'getitem-name'):
                 continue
             if not origin.startswith('vector') and DERIVS[di] in ('fillna', 'cast'):
